@@ -194,6 +194,10 @@ def run_property(prop: str, tier: str, seed: int) -> int:
     t0 = time.time()
     mod = load_prop(prop)
     shards = mod.shards(tier, seed)
+    # pinned witnesses of listed known findings: re-observed deterministically on every run
+    for k in load_known_findings():
+        if k.get("property") == prop and k.get("status") == "known" and k.get("pinned_case"):
+            shards.append({"kind": "pinned", "file": k["pinned_case"], "finding": k["id"]})
     workdir = os.path.join(ROOT, ".work", f"{prop}-{os.getpid()}")
     os.makedirs(workdir, exist_ok=True)
     timeout = getattr(mod, "WATCHDOG_S", {"quick": 900, "thorough": 5400}).get(tier, 900)
@@ -267,11 +271,12 @@ def run_property(prop: str, tier: str, seed: int) -> int:
         "wall_s": round(wall, 2), "violations": len(unlisted) + (overflow if unlisted else 0),
         "assumptions": getattr(mod, "ASSUMPTIONS", []),
     }
-    os.makedirs(os.path.join(ROOT, "evidence"), exist_ok=True)
+    evdir = os.environ.get("VERIF_EVIDENCE_DIR") or os.path.join(ROOT, "evidence")
+    os.makedirs(evdir, exist_ok=True)
     err = validate_evidence(ev)
     if err and not unlisted:
         inconclusive.append(err)
-    with open(os.path.join(ROOT, "evidence", f"{prop}.json"), "w") as f:
+    with open(os.path.join(evdir, f"{prop}.json"), "w") as f:
         json.dump(ev, f, indent=1, default=str)
         f.write("\n")
 
